@@ -219,6 +219,7 @@ func (c *FnCtx) doStore(st *State, x *ssa.Store) bool {
 		return true
 	}
 	c.checkGuardedWrite(st, a, x.Pos())
+	c.checkAnonGuarded(st, a, x.Pos(), true)
 	c.store(st, a, v)
 	return true
 }
@@ -255,6 +256,7 @@ func (c *FnCtx) unop(st *State, x *ssa.UnOp) bool {
 			st.env[x] = c.freshVal(st, x.Type(), "arrload")
 			return true
 		}
+		c.checkAnonGuarded(st, a, x.Pos(), false)
 		lv := c.load(st, a)
 		c.assumeAllocated(st, lv)
 		lv = retype(lv, x.Type())
@@ -860,8 +862,14 @@ func valEq(a, b Val) string {
 		return eq(a.S, b.S)
 	}
 	if a.K == KSlice && b.K == KSlice {
-		// only comparison with nil is legal Go
-		return and(eq(a.Base(), b.Base()), eq(a.Len(), b.Len()))
+		// only comparison with nil is legal Go; in specifications == is identity of the slice header
+		if b.Base() == "0" {
+			return eq(a.Base(), "0")
+		}
+		if a.Base() == "0" {
+			return eq(b.Base(), "0")
+		}
+		return and(eq(a.Base(), b.Base()), eq(a.Off(), b.Off()), eq(a.Len(), b.Len()), eq(a.Cap(), b.Cap()))
 	}
 	if a.K == KSlice && b.IsScalar() {
 		return eq(a.Base(), "0")
@@ -884,6 +892,16 @@ func valEq(a, b Val) string {
 // sentinels (errors.New returns a distinct pointer each time).
 func (c *FnCtx) sentinelFacts(st *State, g *ssa.Global, v Val) {
 	if v.K != KIface || !types.Identical(g.Type().(*types.Pointer).Elem(), types.Universe.Lookup("error").Type()) {
+		return
+	}
+	external := g.Pkg != nil && !strings.HasPrefix(g.Pkg.Pkg.Path(), modulePath)
+	if external {
+		// exported error sentinels of the standard library / dependencies (io.EOF, os.ErrNotExist …)
+		// are assumed non-nil; their distinctness is not assumed
+		if g.Object() != nil && g.Object().Exported() && (strings.HasPrefix(g.Name(), "Err") || g.Name() == "EOF") {
+			st.assume(not(eq(v.S, "0")))
+			c.note("exported error sentinels of dependencies (e.g. " + g.Pkg.Pkg.Path() + "." + g.Name() + ") are assumed non-nil")
+		}
 		return
 	}
 	if !c.eng.initOnlyGlobal(g) || !c.eng.initFromErrorsNew(g) {
